@@ -3,6 +3,12 @@ use vh::core::*;
 
 fn main() {
     let args: Vec<String> = std::env::args().collect();
+    if args.len() == 2 && args[1] == "stdio" {
+        std::process::exit(vh::c16::stdio_main());
+    }
+    if args.len() == 2 && args[1] == "c12worker" {
+        std::process::exit(vh::c12::worker_main());
+    }
     if args.len() < 3 {
         eprintln!("usage: vh <Cxx|sub> <quick|thorough> [--replay path]");
         std::process::exit(3);
@@ -15,6 +21,17 @@ fn main() {
     }
     if id == "c12worker" {
         std::process::exit(vh::c12::worker_main());
+    }
+    if id == "c16client" {
+        let p = |i: usize| args[i].parse::<u64>().unwrap_or(0);
+        std::process::exit(vh::c16::client_main(&args[2], &args[3], p(4), p(5) as usize));
+    }
+    if id == "c16addr" {
+        let p = |i: usize| args[i].parse::<u64>().unwrap_or(0);
+        std::process::exit(vh::c16::addr_main(p(2), p(3) as usize));
+    }
+    if id == "stdio" {
+        std::process::exit(vh::c16::stdio_main());
     }
     if id == "serve" {
         std::process::exit(vh::c06::serve(&args[2]));
